@@ -104,6 +104,11 @@ def run(tier):
             inst.update(maxfun=int(rng.integers(1, 4)))                             # early termination without a Jacobian
         elif k == 4:
             inst.update(prob="zero")
+            if i % 12 == 4:
+                inst.update(rdtype=corpus._pick(rng, ["int", "float32"]))       # exit at x0 with residuals of another dtype: printing must survive the round trip
+        elif k == 5 and i % 12 == 5:
+            inst.update(rdtype="float32", prob="lin", maxfun=int(rng.integers(2, 12)))
+            inst.pop("nsamples", None)
         inst.pop("noise", None)
         insts.append(inst)
     tcov, _ = sc.trace_part("C20", insts, V, os.path.join(wd, "traces"))
